@@ -4,7 +4,7 @@ Content models
     cm   ::= ('EMPTY',) | ('ANY',) | ('MIXED', [name...]) | ('CH', node)
     node ::= ('n', name, occ) | ('s', [node...], occ) | ('c', [node...], occ)        occ in '', '?', '*', '+'
 Membership of a child-name sequence in a 'CH' model is decided twice: position-set/Glushkov simulation, and re.fullmatch on a
-one-letter-per-name translation (sequences of up to 8 names) or Brzozowski derivatives (longer ones, where a backtracking matcher can
+one-letter-per-name translation (sequences of up to 5 names) or Brzozowski derivatives (longer ones, where a backtracking matcher can
 blow up); `Membership.accepts` returns (verdict, witnesses_agree).
 
 Attribute declarations   {'name','type','enum','kind','dflt','loc'}   type in ATT_TYPES, kind in DEFAULT_KINDS
@@ -213,7 +213,8 @@ class Membership:
         if cm[0] == 'MIXED': return (all(n in cm[1] for n in seq), True)
         a = self.g.accepts(seq)
         if any(n not in self.letter for n in seq): return (False, not a)
-        if len(seq) > 8:           # long sequence: derivative matcher instead of the backtracking one (see above)
+        if len(seq) > 5:           # longer sequence: derivative matcher instead of the backtracking one (see above; nested stars
+                                   # such as (((a*|a*)*)*)* already cost minutes at length 7)
             b = accepts_deriv(self.term, seq, self.dmemo)
         else:
             b = self.rx.fullmatch(''.join(self.letter[n] for n in seq)) is not None
